@@ -1,4 +1,5 @@
 import OmplModel.Model.ConstrainedAtlas
+import OmplModel.Model.ConstrainedSI
 import OmplModel.Model.AtlasChart
 import OmplModel.Driver.Constrained
 /-!
@@ -299,6 +300,58 @@ def stepA (st : StA) (ts : List String) : StA × String :=
         | some r => pure (s!"s= {showVec r.state} via={Via.name r.via} psi={r.psiCalls}" ++ tailA r.st)
         | none => pure "s= none"
       | [] => none
+    | "gms" :: e :: rest => do
+      -- ConstrainedSpaceInformation::getMotionStates (Projected / Atlas), geodesic = recorded
+      let e ← parseBool? e
+      let (a, rest) ← takeVec n rest
+      let (b, rest) ← takeVec n rest
+      match rest with
+      | gret :: k :: rest => do
+        let gret ← parseBool? gret
+        let k ← k.toNat?
+        let (g, rest) ← takeVecs n k rest
+        if !rest.isEmpty then none
+        let geo : Geo Unit Vec := fun _ _ _ _ => (gret, g, ())
+        let r := getMotionStates geo () a b e
+        pure (s!"n={r.1.length} " ++ joinSp (r.1.map showVec))
+      | _ => none
+    | "tgms" :: rest => do
+      -- TangentBundleSpaceInformation::getMotionStates: the whole traversal and every projection are replayed
+      let (a, rest) ← takeVec n rest
+      let (b, rest) ← takeVec n rest
+      let evs ← parseAEvs n st.k rest #[]
+      let geo : Geo ASt Vec := tbGeo A Am O st.AP Float.isFinite fuel
+      match tbGetMotionStates geo (tbProject O) ⟨evs, false⟩ a b with
+      | some (l, s) => pure (s!"n={l.length} " ++ joinSp (l.map showVec) ++ tailA s)
+      | none => pure "n=none"
+    | "tsicm" :: hf :: rest => do
+      -- TangentBundleSpaceInformation::checkMotion(s1, s2, lastValid): validator (geodesic recorded) + in-place projection
+      let hf ← parseBool? hf
+      let (a, rest) ← takeVec n rest
+      let (b, rest) ← takeVec n rest
+      match rest with
+      | gret :: k :: rest => do
+        let gret ← parseBool? gret
+        let k ← k.toNat?
+        let (g, rest) ← takeVecs n k rest
+        let evs ← parseAEvs n st.k rest #[]
+        let geo : Geo ASt Vec := fun s _ _ _ => (gret, g, s)
+        let cm := checkMotion2 A Am O.isSat O.valid geo hf ⟨evs, false⟩ a b
+        let cur : Option Vec := if hf then some (Array.replicate n 12345.678) else none
+        match tbSiCheckMotion (tbProject O) cur cm with
+        | some r => pure (s!"v={b01 r.verdict} first= {showOptVec r.first} second={showOptF r.second}" ++ tailA r.st)
+        | none => pure "v=none"
+      | _ => none
+    | "vs" :: att :: rest => do
+      -- ConstrainedValidStateSampler::sample / sampleNear: the draw is the state the next isValid call is asked about
+      let att ← att.toNat?
+      let evs ← parseAEvs n st.k rest #[]
+      let draw : ASt → Vec × ASt := fun s =>
+        match s.evs with
+        | .V x _ :: _ => (x, s)
+        | _ => (#[], { s with miss := true })
+      let r := validSample draw O.valid O.isSat att ⟨evs, false⟩
+      pure (s!"ret={b01 r.1} s= {showVec r.2.1} draws={r.2.2.1}" ++ tailA r.2.2.2)
     | _ => none
   let showH (h : Halfspace Float Vec) : String := showVec h.u ++ " " ++ floatBits h.usq ++ " " ++ floatBits h.rhs
   let chartOp : Option (StA × String) :=
@@ -367,6 +420,7 @@ def stepA (st : StA) (ts : List String) : StA × String :=
     match ts with
     | "nch" :: _ | "gh" :: _ | "ipk" :: _ | "bck" :: _ => (st, "bad-op")
     | "ageo" :: _ | "tgeo" :: _ | "tinterp" :: _ | "asu" :: _ | "asn" :: _ => (st, "bad-op")
+    | "gms" :: _ | "tgms" :: _ | "tsicm" :: _ | "vs" :: _ => (st, "bad-op")
     | _ =>
       let r := step st.base ts
       ({ st with base := r.1 }, r.2)
